@@ -410,6 +410,9 @@ public:
       c.writer = r.chance(0.3) ? 1 : 0;
       c.dump_every_step = r.chance(0.5);
       c.restart_midway = c.dump_every_step && r.chance(0.6) && c.steps >= 2;
+      // the restarted run may be given another number of threads
+      c.restart_threads =
+          c.restart_midway && r.chance(0.5) ? (int)r.range(1, 6) : 0;
       c.source_type = (int)r.below(5);
       c.feedback = c.source_type == 3 && r.chance(0.5);
       c.backups = (int)r.range(0, 3);
@@ -427,6 +430,7 @@ public:
         // cooling-table finding would show up as an unattributable SIGSEGV
         c.cooling = false;
         c.threads = std::min(c.threads, 3);
+        c.restart_threads = std::min(c.restart_threads, 3);
         c.steps = std::min(c.steps, 2);
         c.packets = std::min(c.packets, 150l);
       }
@@ -550,7 +554,8 @@ public:
           extra2.push_back("--number-of-steps");
           extra2.push_back(std::to_string(c.steps));
           scrub_memory(0xA5);
-          rc = run_rhd(pf, c.threads, extra2);
+          rc = run_rhd(pf, c.restart_threads > 0 ? c.restart_threads : c.threads,
+                       extra2);
         }
       } else {
         extra.push_back(std::to_string(c.steps));
